@@ -385,3 +385,53 @@ def sp3(P, C):
     if n == 0:
         raise core.AnalysisBroken("SP-3: no cholmod_l_change_factor call in cholesky_solve.c")
     return n
+
+
+def sp4(P, C):
+    """SP-4: the row pattern handed to cholmod_l_rowdel."""
+    C.rule("SP-4", "every cholmod_l_rowdel in the fitter passes NULL as the row pattern (CHOLMOD then takes row k of L itself), or a pattern "
+           "obtained FROM THE FACTOR it updates (cholmod_l_row_lsubtree / row_subtree with that factor): the pattern must be that of row k "
+           "of L, fill-in included — the corresponding column of A lacks the fill-in, the entries L(k,j) it misses are neither zeroed nor "
+           "down-dated and every later solve through the factor is wrong (KKT violated on sparse systems with fill-in)", floor=1)
+    n = 0
+    for f in sorted(P.functions.values(), key=lambda g: (g.file, g.line)):
+        if not f.unit.startswith("fitter/"):
+            continue
+        for i, cal in f.calls():
+            if not cal or cal["name"] not in ("cholmod_l_rowdel", "cholmod_l_rowdel_solve", "cholmod_l_rowdel_mark"):
+                continue
+            a = f.args(i)
+            r = f.strip(a[1])
+            Lid = None
+            for x in f.walk(a[2]):
+                if f.k(x) == "DeclRefExpr":
+                    Lid = f.nodes[x]["decl"].get("id")
+            n += 1
+            if f.k(r) in ("GNUNullExpr", "CXXNullPtrLiteralExpr") or f.nodes[r].get("cv") == 0 or f.render(r).replace(" ", "") in ("NULL", "((void*)0)", "(void*)0"):
+                C.ob("SP-4", f.name, "rowdel-pattern#%d" % n, True, f.loc(i), "row pattern NULL: CHOLMOD reads row k of the factor itself")
+                continue
+            ok, det = False, "the row pattern %s cannot be traced to the factor" % f.render(r)
+            if f.k(r) == "DeclRefExpr":
+                vid = f.nodes[r]["decl"].get("id")
+                srcs = []
+                for x in f.walk():
+                    ap = None
+                    from . import ts as _ts
+                    ap = _ts.assign_parts(f, x)
+                    if ap and ap[1] is not None and f.k(f.strip(ap[0])) == "DeclRefExpr" and f.nodes[f.strip(ap[0])]["decl"].get("id") == vid:
+                        srcs.append(f.strip(ap[1]))
+                    # out-parameter form: cholmod_l_row_lsubtree(A, Fi, fnz, k, L, R, c)
+                    cc = f.nodes[x].get("callee")
+                    if cc and cc["name"] in ("cholmod_l_row_lsubtree", "cholmod_l_row_subtree") and any(
+                            f.k(y) == "DeclRefExpr" and f.nodes[y]["decl"].get("id") == vid for aa in f.args(x) for y in f.walk(aa)):
+                        srcs.append(x)
+                from_factor = [s_ for s_ in srcs if f.nodes[s_].get("callee") and f.nodes[s_]["callee"]["name"] in ("cholmod_l_row_lsubtree", "cholmod_l_row_subtree") and
+                               any(f.k(y) == "DeclRefExpr" and f.nodes[y]["decl"].get("id") == Lid for aa in f.args(s_) for y in f.walk(aa))]
+                ok = bool(srcs) and len(from_factor) == len(srcs)
+                det = "row pattern computed from the factor by %s" % ", ".join(sorted(set(f.nodes[s_]["callee"]["name"] for s_ in from_factor))) if ok else \
+                    "the row pattern `%s` comes from %s, not from the factor %s: it lacks the fill-in of row k of L" % (
+                        f.render(r), ", ".join(sorted(set((f.nodes[s_].get("callee") or {}).get("name", f.render(s_)[:40]) for s_ in srcs))) or "nowhere visible", f.render(a[2]))
+            C.ob("SP-4", f.name, "rowdel-pattern#%d" % n, ok, f.loc(i), det)
+    if n == 0:
+        raise core.AnalysisBroken("SP-4: no cholmod_l_rowdel call found in the fitter")
+    return n
